@@ -19,7 +19,8 @@ Inductive sop :=
 | SMarkCall (rc txs ev : list N) (panicked : bool)   (* MarkExecuted(receipts with hashes of tbl[rc], block txs tbl[txs], evicted tbl[ev]) *)
 | SMarkEvRange (base count : N)                      (* MarkExecuted(no receipts, evicted = hashes base .. base+count-1) *)
 | SEvictedRaw (h : N) (r : bool)                     (* evicted-cache probe of a raw hash *)
-| SClear (newlim : N).                               (* Clear(); the new pending container has limit newlim *)
+| SClear (newlim : N)
+| SAddMany (l : list (N * bool)).                    (* AddTransaction(tbl[i]) = (ok, nil / ErrExist) for each (i, ok), in order *)                               (* Clear(); the new pending container has limit newlim *)
 
 Definition T (h s n r : N) : tx := mkTx h s n r.
 
@@ -77,6 +78,17 @@ Fixpoint nrange (base : N) (n : nat) : list N :=
 Definition do_mark (det : bool) (s : pool) (txs : list tx) (ev : list N) : pool :=
   if det then mark_detached s txs ev else mark_executed s txs ev.
 
+(* a run of adds evaluated in one step (the per-step invariant / ring bookkeeping of chk_steps is then done
+   once for the whole run; no expiry tick can fall in between) *)
+Fixpoint add_many (lim : N) (tbl : list tx) (s : pool) (l : list (N * bool)) : bool * pool :=
+  match l with
+  | [] => (true, s)
+  | (i, ok) :: r =>
+    let '(s', res) := add lim s (nth_tx tbl i) in
+    let good := match res with AOk => ok | AErrExist => negb ok end in
+    let '(g, s'') := add_many lim tbl s' r in (good && g, s'')
+  end.
+
 Definition chk_step (f : flags) (det : bool) (lim cap : N) (tbl : list tx) (s : pool) (o : sop) : bool * pool :=
   match o with
   | SAdd i ok err =>
@@ -91,6 +103,7 @@ Definition chk_step (f : flags) (det : bool) (lim cap : N) (tbl : list tx) (s : 
   | SMarkEvRange base count => (true, do_mark det s [] (nrange base (N.to_nat count)))
   | SEvictedRaw h r => (Bool.eqb (memN h (evicted s)) r, s)
   | SClear _ => (true, s)  (* handled by chk_steps *)
+  | SAddMany l => add_many lim tbl s l
   | SUnmark txs ev => (true, unmark lim s (sel tbl txs) (hashes (sel tbl ev)))
   | SPack st sorted packed => (chk_pack f cap s st (sel tbl sorted) (sel tbl packed), s)
   | SLookup i w j =>
